@@ -124,7 +124,7 @@ reg(
 reg(
     "C10",
     "Fault enumeration: fork-based kill/interrupt injection at every (utterance, phase, kind) crash point of signals-to-torch-feat-dir, invariants after the crash and after resume against an uninterrupted reference run; Hypothesis-generated crash histories and worker counts",
-    "Complete crash-point grid (k x {before_save, mid_write, after_save, after_manifest} x {hard, soft}) for 1..5 utterances x workers {0,2} in the thorough tier (1 and 3 utterances in quick), generated single crashes, histories of 2-3 successive crashes, and worker-count independence with drawn per-item delays; dither > 0 with a fixed --seed throughout. Found and now guards F10a/F10b.",
+    "Complete crash-point grid (k x {before_save, mid_write, after_save, after_manifest} x {hard, soft}) for 1..5 utterances x workers {0,2} in the thorough tier (3 utterances in quick), generated single crashes, histories of 2-3 successive crashes, and worker-count independence with drawn per-item delays; dither > 0 with a fixed --seed throughout. Found and now guards F10a/F10b.",
     "hard kill = os._exit at Python-level points (a kill inside a write() system call cannot be injected); worker schedules perturbed, not enumerated.",
     category="fault_enumeration",
 )
